@@ -1101,7 +1101,11 @@ func TestVerifC36(t *testing.T) {
 	vfC36PartE(t, r, n)
 
 	// ---- F: the template functions called directly (zz_verif_c36funcs_test.go)
-	vfC36PartF(vfNewRand(r.U64()), 2*n)
+	nF := 2 * n
+	if nF > n+300 { // thorough tier: keep the run inside its time budget
+		nF = n + 300
+	}
+	vfC36PartF(vfNewRand(r.U64()), nF)
 
 	// ---- D: through the public builder API: a document whose SubRepositoryPath is accepted but is not a prefix of its name
 	for _, c := range [][2]string{{"a", "a/b/c"}, {"x/y.go", "x/y.go/z/w"}} {
